@@ -97,6 +97,9 @@ class Terms:
 
     # -- main entry ----------------------------------------------------------------------
     def term(self, e, scope, depth=0):
+        return _post_canon(self._term(e, scope, depth))
+
+    def _term(self, e, scope, depth=0):
         if e is None:
             return ('none',)
         if depth > 40:
@@ -255,6 +258,26 @@ class Terms:
                     return ('iflet', p0, T(e['expr']), v0, v1)
                 if p0 == 'None' and p1.startswith('Some('):
                     return ('iflet', p1, T(e['expr']), v1, v0)
+            # `match (A, B) { (Some(a), Some(b)) => .., (Some(a), None) => .., (None, Some(b)) => .., (None, None) => .. }` is the nested
+            # `if let Some(a) = A { if let Some(b) = B { .. } else { .. } } else { if let Some(b) = B { .. } else { .. } }`
+            if e['expr']['k'] == 'Tuple' and len(e['expr']['elems']) == 2 and not any(a.get('guard') for a in e['arms']):
+                comps = []
+                for ps, v in arms:
+                    cs = _split_tuple_pat(ps)
+                    if cs is None or len(cs) != 2 or any(not (c == '_' or c == 'None' or c.startswith('Some(')) for c in cs):
+                        comps = None
+                        break
+                    comps.append((cs, v))
+                if comps:
+                    def cell(sa, sb):
+                        for cs, v in comps:
+                            if all(c == '_' or (c == 'None') == (not want) for c, want in zip(cs, (sa, sb))):
+                                return v
+                        return None
+                    vs = [cell(True, True), cell(True, False), cell(False, True), cell(False, False)]
+                    if all(v is not None for v in vs):
+                        A, B = T(e['expr']['elems'][0]), T(e['expr']['elems'][1])
+                        return ('iflet', 'Some(_)', A, ('iflet', 'Some(_)', B, vs[0], vs[1]), ('iflet', 'Some(_)', B, vs[2], vs[3]))
             return ('match', T(e['expr'])) + tuple(arms)
         if k == 'Block':
             return self.block_value_term(e, depth + 1)
@@ -538,6 +561,90 @@ def subterms(t):
         for x in t[1:]:
             if isinstance(x, tuple):
                 yield from subterms(x)
+
+
+IOI = 'crate::common::ident_index::IdentOrIndex::'
+
+
+def _contains_term(t, x):
+    if t == x:
+        return True
+    if isinstance(t, tuple):
+        return any(_contains_term(y, x) for y in t)
+    return False
+
+
+def _is_none(t, scrut=None):
+    return t == ('None',) or (scrut is not None and t == scrut)
+
+
+def _post_canon(t, depth=0):
+    """local canonical forms applied to every term as it is built"""
+    if depth > 6 or not isinstance(t, tuple) or not t:
+        return t
+    # the payload of an Option that is known to be `Some`: of `Some(v)` it is v, of `if let .. { Y } else { None }` it is the payload of Y
+    if t[0] == 'some_of' and len(t) == 2 and isinstance(t[1], tuple) and t[1]:
+        y = t[1]
+        if y[0] == 'Some' and len(y) == 2:
+            return y[1]
+        if y[0] == 'iflet' and len(y) == 5 and _is_none(y[4], y[2]) and isinstance(y[3], tuple) and y[3] and y[3][0] in ('Some', 'iflet'):
+            return _post_canon(('some_of', y[3]), depth + 1)
+    if t[0] == 'proj' and len(t) == 3 and isinstance(t[2], tuple) and t[2] and t[2][0] == 'some_of':
+        inner = _post_canon(t[2], depth + 1)
+        if inner != t[2]:
+            return _post_canon(('proj', t[1], inner), depth + 1)
+    # a projection of `get_key_value` that only looks at the value is `get`
+    if t[0] == 'proj' and len(t) == 3 and t[1] == 1 and isinstance(t[2], tuple) and t[2][0] == 'some_of' and isinstance(t[2][1], tuple) \
+            and t[2][1][0] == 'mcall' and len(t[2][1]) == 4 and t[2][1][2] == 'get_key_value':
+        return ('some_of', ('mcall', t[2][1][1], 'get', t[2][1][3]))
+    if t[0] == 'proj' and len(t) == 3 and isinstance(t[1], int) and isinstance(t[2], tuple) and t[2] and t[2][0] == 'tuple' and t[1] + 1 < len(t[2]):
+        return t[2][t[1] + 1]
+    if len(t) == 5 and t[0] == 'iflet' and isinstance(t[1], str) and t[1].startswith('Some('):
+        X, a, b = t[2], t[3], t[4]
+        # the scrutinee is itself `Some(V)`: the then-branch with V for the payload
+        if isinstance(X, tuple) and len(X) == 2 and X[0] == 'Some':
+            return _post_canon(subst_term(subst_term(a, ('some_of', X), X[1]), ('payload', 'Some', 0, X), X[1]), depth + 1)
+        # `if let Some(p) = (if let Q = A { Y } else { None }) { F } else { None }`  ==  `if let Q = A { if let Some(p) = Y { F } else { None } } else { None }`
+        if isinstance(X, tuple) and len(X) == 5 and X[0] == 'iflet' and _is_none(X[4], X[2]) and _is_none(b, X):
+            inner = ('iflet', t[1], X[3], subst_term(a, X, X[3]), ('None',))
+            return _post_canon(('iflet', X[1], X[2], _post_canon(inner, depth + 1), ('None',)), depth + 1)
+        # `get_key_value` whose key is never looked at is `get`
+        if isinstance(X, tuple) and len(X) == 4 and X[0] == 'mcall' and X[2] == 'get_key_value' and not _contains_term(a, ('proj', 0, ('some_of', X))):
+            Y = ('mcall', X[1], 'get', X[3])
+            a2 = subst_term(a, ('proj', 1, ('some_of', X)), ('some_of', Y))
+            if not _contains_term(a2, X):
+                return _post_canon(('iflet', 'Some(_)', Y, a2, subst_term(b, X, Y)), depth + 1)
+    if len(t) == 5 and t[0] == 'iflet' and isinstance(t[1], str) and t[1].startswith('Some('):
+        X, a, b = t[2], t[3], t[4]
+        # `match ident { Some(i) => IdentOrIndex::from(i), None => IdentOrIndex::from(index) }` is from_ident_with_index(ident, index)
+        if isinstance(a, tuple) and isinstance(b, tuple) and len(a) == 3 and len(b) == 3 and a[0] == 'call' and b[0] == 'call' \
+                and a[1] == IOI + 'from' and b[1] == IOI + 'from' and a[2] in (('some_of', X), ('payload', 'Some', 0, X)):
+            return ('call', IOI + 'from_ident_with_index', X, b[2])
+    return t
+
+
+def _split_tuple_pat(ps):
+    """components of a printed tuple pattern `(P, Q)`; None if it is not one"""
+    ps = ps.strip()
+    if not (ps.startswith('(') and ps.endswith(')')):
+        return None
+    inner = ps[1:-1]
+    out, depth, cur = [], 0, ''
+    for ch in inner:
+        if ch in '([{':
+            depth += 1
+        elif ch in ')]}':
+            depth -= 1
+            if depth < 0:
+                return None
+        if ch == ',' and depth == 0:
+            out.append(cur.strip())
+            cur = ''
+        else:
+            cur += ch
+    if cur.strip():
+        out.append(cur.strip())
+    return out
 
 
 def match_arms(t):
